@@ -172,6 +172,17 @@ MappingsOK(q, res) ==
               p \in DOMAIN res.allocs /\ k \in DOMAIN res.allocs[p] /\ res.allocs[p][k] >= g.res[k]
 
 ---------------------------------------------------------------------------
+\* C02: the allocation write that claims a returned request for a consumer that
+\* does not exist yet; Apply must accept it
+ClaimReq(r) ==
+  [op |-> "alloc_put", v |-> 39, c |-> "c9", project |-> "proj1", user |-> "user1", cgen |-> -1, ctype |-> "INSTANCE",
+   env |-> [iproj |-> "x", iuser |-> "x"],
+   allocs |-> LET ps == SetToSeq(DOMAIN r.allocs) IN
+              [n \in DOMAIN ps |-> [u |-> ps[n],
+                                    res |-> LET ks == SetToSeq(DOMAIN r.allocs[ps[n]]) IN
+                                            [m \in DOMAIN ks |-> [rc |-> ks[m], amt |-> r.allocs[ps[n]][ks[m]]]]]]]
+
+
 \* GET /resource_providers filters (C13).  f = [name, uuid, in_tree ("" = absent),
 \* member_of : Seq(SUBSET agg), forbidden_aggs, required : Seq(SUBSET trait),
 \* forbidden, resources : [class -> amount]]
